@@ -432,8 +432,9 @@ DIFF_WILDCARD = b'<DIFF>'
 
 def lines_agree(a, b):
     """impl line a vs model line b"""
-    if b == 'skipline':
-        return True     # an op that only queries the harness (the model has nothing to say)
+    if b == 'skipline' or b.startswith('skipline '):
+        return True     # an op that only queries the harness (the model has nothing to say), or one the model
+                        # declares outside its fragment (`skipline cover=0 reason=…`, counted by the suite)
     la, lb = Line(a), Line(b)
     if not la.structured or not lb.structured:
         return a == b
